@@ -1,6 +1,6 @@
 SPECIFICATION Spec
 CONSTANTS
-  BaseIds = {1, 2, 3, 4, 5, 6, 7, 17, 18, 20, 21, 22}
+  BaseIds = {1, 2, 3, 4, 5, 7, 17, 18, 20, 21, 23}
   Toks = {"-q", "--quiet", "-v", "-vv", "-vvv", "--ansi", "--no-ansi", "-n", "--no-interaction", "-h", "--help", "-V", "--version"}
   MaxSw = 2
   LitToks = {"-q", "--help"}
